@@ -476,6 +476,28 @@ fn gen_fit_scenarios(count: usize, rng: &mut StdRng) -> Vec<Scenario> {
             eps: None,
         });
     }
+    // sample counts far beyond everything else (anything quadratic in N - an N x N intermediate - cannot be
+    // allocated or takes minutes): single decay plus offset, start next to the generating parameter,
+    // fit_with_statistics
+    for (n, scalar) in [(100_000usize, "f64"), (70_000, "f32")] {
+        v.push(Scenario::Fit {
+            fam: "SExpOff".to_string(),
+            n,
+            s: 1,
+            start: vec![2.05f64.to_bits()],
+            scalar: scalar.into(),
+            built: true,
+            par: false,
+            patience: 100,
+            stepbound: 100.0,
+            weighted: n % 3 == 1,
+            stats: true,
+            special_y: None,
+            special_w: None,
+            special_x: None,
+            eps: None,
+        });
+    }
     v
 }
 
